@@ -34,9 +34,11 @@ impl Flag {
     #[inline]
     pub fn done(&self, guard: &Guard) {
         if !guard.panicking && thread::panicking() {
+            // an unwind by the Cancel panic does not poison. a real panic does, also
+            // when the coroutine has been cancelled in the meantime
             let is_canceled = if crate::coroutine_impl::is_coroutine() {
                 let cancel = crate::coroutine_impl::current_cancel_data();
-                cancel.is_canceled()
+                cancel.is_unwinding()
             } else {
                 false
             };
